@@ -6,6 +6,7 @@ open NetL
 
 structure DSt where
   l : L := { cap := 8 }
+  tailed : List Nat := []      -- handed-out conns whose client end wrote its last bytes and closed (op `tail`)
 
 def b (x : Bool) : Nat := if x then 1 else 0
 
@@ -18,40 +19,51 @@ def step (d : DSt) (line : String) : DSt × String :=
   | ["dial"] =>
     if l.sess.length ≥ 3 then (d, "bad-op")
     else if l.closed then (d, "refused " ++ snap l)
-    else let l' := newSess l; ({ l := l' }, "ok " ++ snap l')
+    else let l' := newSess l; ({ d with l := l' }, "ok " ++ snap l')
   | ["latedial", c] =>
     -- the handshake of an accepted connection completes after (c = 1) the listener was closed
     if c ≠ "0" ∧ c ≠ "1" then (d, "bad-op")
     else if l.sess.length ≥ 3 then (d, "bad-op")
     else if l.closed then (d, "refused " ++ snap l)
-    else let l' := newSess (if c == "1" then close l else l); ({ l := l' }, "ok " ++ snap l')
+    else let l' := newSess (if c == "1" then close l else l); ({ d with l := l' }, "ok " ++ snap l')
   | ["open", k] =>
     match l.sess[Drv.nat! k]? with
     | none => (d, "bad-op")
     | some x =>
       if x.closed then (d, "done " ++ snap l)
-      else let l' := stream l (Drv.nat! k); ({ l := l' }, "done " ++ snap l')
+      else let l' := stream l (Drv.nat! k); ({ d with l := l' }, "done " ++ snap l')
   | ["accept"] =>
     if l.backlog.isEmpty ∧ !l.closed then (d, "empty " ++ snap l)
     else match accept l with
-      | (l', some _) => ({ l := l' }, "ok " ++ snap l')
-      | (l', none) => ({ l := l' }, "closed " ++ snap l')
+      | (l', some _) => ({ d with l := l' }, "ok " ++ snap l')
+      | (l', none) => ({ d with l := l' }, "closed " ++ snap l')
   | ["echo", c, _] =>
+    if d.tailed.contains (Drv.nat! c) then (d, "noop " ++ snap l) else
     match l.handed[Drv.nat! c]? with
     | none => (d, "noop " ++ snap l)
     | some w =>
       match l.conns[w]? with
       | none => (d, "noop " ++ snap l)
       | some x => if x.closed ∨ ((l.sess[x.sess]?).map (·.closed)).getD true then (d, "noop " ++ snap l) else (d, "ok " ++ snap l)
+  | ["tail", c, _] =>
+    -- the client end writes and closes: nothing changes in the adapter's accounting until the server closes its conn
+    if d.tailed.contains (Drv.nat! c) then (d, "noop " ++ snap l) else
+    match l.handed[Drv.nat! c]? with
+    | none => (d, "noop " ++ snap l)
+    | some w =>
+      match l.conns[w]? with
+      | none => (d, "noop " ++ snap l)
+      | some x => if x.closed ∨ ((l.sess[x.sess]?).map (·.closed)).getD true then (d, "noop " ++ snap l)
+                  else ({ d with tailed := d.tailed ++ [Drv.nat! c] }, "ok " ++ snap l)
   | ["cclose", c] =>
     match l.handed[Drv.nat! c]? with
     | none => (d, "noop " ++ snap l)
-    | some w => let l' := closeConn l w; ({ l := l' }, "ok " ++ snap l')
+    | some w => let l' := closeConn l w; ({ d with l := l' }, "ok " ++ snap l')
   | ["drop", k] =>
     match l.sess[Drv.nat! k]? with
     | none => (d, "noop " ++ snap l)
-    | some _ => let l' := sessGone l (Drv.nat! k); ({ l := l' }, "ok " ++ snap l')
-  | ["lclose"] => let l' := close l; ({ l := l' }, "ok " ++ snap l')
+    | some _ => let l' := sessGone l (Drv.nat! k); ({ d with l := l' }, "ok " ++ snap l')
+  | ["lclose"] => let l' := close l; ({ d with l := l' }, "ok " ++ snap l')
   | _ => (d, "bad-op")
 
 end Drv.C19
